@@ -17,6 +17,7 @@ from ..ref import ed25519 as E
 from ..ref import isa, sigmsg, taproot
 
 ID = 'C05'
+BUILDER_DEFAULTS = True     # tools.* goes through tsverif/omit.py
 RULE = ('locks from random seeds x verdict-diverse committed scripts x '
         'sigfield sets x flag/allowed pairs; per lock: root identity, builder '
         'key-spend for every permitted flag of a sample + script-spend, '
